@@ -301,6 +301,7 @@ class Corpus:
                             bad.add(n)
                             self.rejected.setdefault(n, m["message"]["message"][:300])
             if not bad:
+                open(os.path.join(vlib.BUILD, "last_corpus_build_%s.log" % self.tag), "w").write(out)
                 raise ToolError("corpus %s does not build and no generated item is to blame:\n%s" % (self.tag, out[-3000:]))
             units = [u for u in units if u.name not in bad]
         else:
